@@ -71,7 +71,11 @@ type fnSpec struct {
 	// of the body both yield Result (the loop structure itself is guarded by a T2 fact).
 	LoopBody bool
 	Result   string
-	Doc      string
+	// Fuel: name of the `Nat` parameter (declared in Params) that bounds the iterations of every translated
+	// `for` loop: `for init; cond; post { body }` becomes `Go.loop fuel cond (body; post) state`, where the
+	// state is the tuple of outer variables the loop assigns. Theorems state how much fuel suffices.
+	Fuel string
+	Doc  string
 }
 
 type translator struct {
@@ -79,6 +83,8 @@ type translator struct {
 	fset   *token.FileSet
 	consts map[string]*big.Int
 	errs   []string
+	// yields: what `continue` means inside the translated `for` loops currently open (innermost last)
+	yields []func(env, string) string
 }
 
 func (tr *translator) fail(n ast.Node, format string, a ...any) {
@@ -537,6 +543,33 @@ func (tr *translator) block(stmts []ast.Stmt, en env, ind string, rest func(env,
 			return out + next(en2, ind)
 		}
 	case *ast.AssignStmt:
+		if len(x.Lhs) > 1 && len(x.Lhs) == len(x.Rhs) && (x.Tok == token.DEFINE || x.Tok == token.ASSIGN) {
+			// i, j := a, b   (parallel assignment: all right-hand sides are evaluated first)
+			en2 := en.clone()
+			var names, vals []string
+			okAll := true
+			for k := range x.Lhs {
+				id, isId := x.Lhs[k].(*ast.Ident)
+				if !isId {
+					okAll = false
+					break
+				}
+				v := tr.expr(x.Rhs[k], en)
+				if x.Tok == token.DEFINE {
+					if v.t == tConst {
+						v = tr.coerce(s, v, tInt)
+					}
+					en2[id.Name] = v.t
+				} else {
+					v = tr.coerce(s, v, en[id.Name])
+				}
+				names = append(names, leanIdent(id.Name))
+				vals = append(vals, v.s)
+			}
+			if okAll {
+				return fmt.Sprintf("%slet (%s) := (%s)\n", ind, strings.Join(names, ", "), strings.Join(vals, ", ")) + next(en2, ind)
+			}
+		}
 		if len(x.Lhs) == 1 && len(x.Rhs) == 1 {
 			// buf[i] = e
 			if ix, ok := x.Lhs[0].(*ast.IndexExpr); ok && x.Tok == token.ASSIGN {
@@ -608,9 +641,55 @@ func (tr *translator) block(stmts []ast.Stmt, en env, ind string, rest func(env,
 			}
 		}
 	case *ast.BranchStmt:
+		if x.Tok == token.CONTINUE && x.Label == nil && len(tr.yields) > 0 {
+			return tr.yields[len(tr.yields)-1](en, ind)
+		}
 		if x.Tok == token.CONTINUE && x.Label == nil && tr.spec.LoopBody {
 			return ind + tr.spec.Result
 		}
+	case *ast.ForStmt:
+		if tr.spec.Fuel == "" {
+			break
+		}
+		if x.Init != nil {
+			return tr.block([]ast.Stmt{x.Init, &ast.ForStmt{For: x.For, Cond: x.Cond, Post: x.Post, Body: x.Body}}, en, ind, next)
+		}
+		vars, okLoop := tr.loopState(x, en)
+		if !okLoop {
+			break
+		}
+		var tys []string
+		for _, v := range vars {
+			tys = append(tys, leanTy(en[v]))
+		}
+		pat, typ := leanIdent(vars[0]), tys[0]
+		if len(vars) > 1 {
+			var ids []string
+			for _, v := range vars {
+				ids = append(ids, leanIdent(v))
+			}
+			pat, typ = "("+strings.Join(ids, ", ")+")", strings.Join(tys, " × ")
+		}
+		cond := "true"
+		if x.Cond != nil {
+			cond = tr.coerce(s, tr.expr(x.Cond, en), tBool).s
+		}
+		yield := func(en env, ind string) string {
+			if x.Post != nil {
+				return tr.block([]ast.Stmt{x.Post}, en, ind, func(_ env, ind string) string { return ind + pat })
+			}
+			return ind + pat
+		}
+		tr.yields = append(tr.yields, yield)
+		bodyTxt := tr.block(x.Body.List, en, ind+"    ", yield)
+		tr.yields = tr.yields[:len(tr.yields)-1]
+		binder := pat
+		if len(vars) > 1 {
+			binder = "(" + pat + " : " + typ + ")"
+		} else {
+			binder = "(" + pat + " : " + typ + ")"
+		}
+		return fmt.Sprintf("%slet %s := Go.loop %s (fun %s => %s) (fun %s =>\n%s) %s\n", ind, pat, tr.spec.Fuel, binder, cond, binder, bodyTxt, pat) + next(en, ind)
 	case *ast.BlockStmt:
 		return tr.block(x.List, en, ind, next)
 	case *ast.IfStmt:
@@ -695,6 +774,94 @@ func (tr *translator) block(stmts []ast.Stmt, en env, ind string, rest func(env,
 	}
 	tr.fail(s, "unsupported statement: %s", key)
 	return ind + "sorryUnsupported"
+}
+
+// loopState lists (sorted) the variables declared outside the loop that its body or post statement assign;
+// a loop that returns, breaks, jumps or defines closures is outside the subset.
+func (tr *translator) loopState(x *ast.ForStmt, en env) ([]string, bool) {
+	seen := map[string]bool{}
+	ok := true
+	note := func(e ast.Expr) {
+		if st, isStar := e.(*ast.StarExpr); isStar {
+			e = st.X
+		}
+		if a, isAlias := tr.spec.Alias[tr.str(e)]; isAlias {
+			e = &ast.Ident{Name: a}
+		}
+		if id, isId := e.(*ast.Ident); isId {
+			if _, outer := en[id.Name]; outer {
+				seen[id.Name] = true
+			}
+		}
+	}
+	var visit func(n ast.Node) bool
+	visit = func(n ast.Node) bool {
+		switch y := n.(type) {
+		case *ast.ReturnStmt, *ast.FuncLit, *ast.GoStmt, *ast.DeferStmt, *ast.LabeledStmt:
+			ok = false
+		case *ast.BranchStmt:
+			if y.Tok != token.CONTINUE || y.Label != nil {
+				ok = false
+			}
+		case *ast.ForStmt:
+			if y != x {
+				ok = false // nested loops: not needed so far
+			}
+		case *ast.RangeStmt:
+			ok = false
+		case *ast.AssignStmt:
+			if rep, isRep := tr.spec.Stmt[tr.str(y)]; isRep {
+				_ = rep
+				for v := range tr.spec.StmtVars[tr.str(y)] {
+					if _, outer := en[v]; outer {
+						seen[v] = true
+					}
+				}
+				return false
+			}
+			if y.Tok != token.DEFINE {
+				for _, l := range y.Lhs {
+					if ix, isIx := l.(*ast.IndexExpr); isIx {
+						if name, _, okB := tr.lvalueBytes(ix.X, en); okB {
+							seen[name] = true
+						}
+						continue
+					}
+					note(l)
+				}
+			}
+		case *ast.IncDecStmt:
+			note(y.X)
+		case *ast.ExprStmt:
+			if c, isCall := y.X.(*ast.CallExpr); isCall {
+				switch tr.str(c.Fun) {
+				case "copy", "binary.BigEndian.PutUint16":
+					if name, _, okB := tr.lvalueBytes(c.Args[0], en); okB {
+						seen[name] = true
+					}
+				}
+			}
+		}
+		return ok
+	}
+	ast.Inspect(x.Body, visit)
+	if x.Post != nil {
+		ast.Inspect(x.Post, visit)
+	}
+	if !ok {
+		tr.fail(x, "loop outside the subset (return / break / nested loop / closure inside)")
+		return nil, false
+	}
+	var vars []string
+	for v := range seen {
+		vars = append(vars, v)
+	}
+	sort.Strings(vars)
+	if len(vars) == 0 {
+		tr.fail(x, "loop assigns no outer variable")
+		return nil, false
+	}
+	return vars, true
 }
 
 // pureAssignIf reports whether the if statement (with optional else block)
